@@ -551,3 +551,75 @@ func contains(xs []int, x int) bool {
 	}
 	return false
 }
+
+// queryAcrossCacheOps: the cache may be changed while a query through a registered filter is open (Register and
+// Unregister are not structural operations). A query opened through registration `own` is advanced part of the
+// way, then another registration is unregistered and registered again (same original filter, so the set of
+// registrations stays what the history says), then the query is finished: it must visit what it would have visited.
+func (s *Sess) queryAcrossCacheOps(own int, f ecs.Filter, spec *FSpec, mode int) {
+	if _, ok := f.(*ecs.CachedFilter); !ok || len(s.regs) < 2 || s.open > 0 {
+		return
+	}
+	w := s.W
+	base := s.iterate(f)
+	slots := sortedSlots(s.regs)
+	others := []int{}
+	for _, sl := range slots {
+		if sl != own {
+			others = append(others, sl)
+		}
+	}
+	other := others[mode%len(others)]
+	q := w.Query(f)
+	k := 0
+	if len(base) > 0 {
+		k = (mode / 3) % (len(base) + 1)
+	}
+	for i := 0; i < k; i++ {
+		if !q.Next() || q.Entity() != base[i] {
+			s.fail("query.repeat", "query %s: second iteration differs at position %d", spec, i)
+			if w.IsLocked() {
+				q.Close()
+			}
+			return
+		}
+	}
+	r := s.regs[other]
+	orig := w.Cache().Unregister(&r.cached)
+	if !sameFilter(orig, r.orig) {
+		s.fail("cache.unregister", "Unregister returned %v, not the original filter %v", orig, r.orig)
+	}
+	s.stale = append(s.stale, r.cached)
+	if mode%2 == 0 {
+		// look at the open query between the two cache calls as well
+		if n := q.Count(); n != len(base) {
+			s.fail("cache.openquery", "query through registered filter %s (slot %d), open at position %d while registration %d was unregistered: Count()=%d, it was opened on %d entities", spec, own, k, other, n, len(base))
+		}
+	}
+	c := w.Cache().Register(r.orig)
+	s.regs[other] = &regEntry{spec: r.spec, orig: r.orig, cached: c}
+	if s.Failed() {
+		if w.IsLocked() {
+			q.Close()
+		}
+		return
+	}
+	i := k
+	for q.Next() {
+		if i >= len(base) || q.Entity() != base[i] {
+			s.fail("cache.openquery", "query through registered filter %s (slot %d), open at position %d while registration %d was unregistered and registered again: position %d is %v, it was opened on %v", spec, own, k, other, i, q.Entity(), short(base))
+			q.Close()
+			return
+		}
+		i++
+	}
+	if i != len(base) {
+		s.fail("cache.openquery", "query through registered filter %s (slot %d), open at position %d while registration %d was unregistered and registered again: visited %d of %d entities", spec, own, k, other, i, len(base))
+		return
+	}
+	if w.IsLocked() {
+		s.fail("lock.release", "world still locked after exhaustion of a query that was open across cache calls")
+		return
+	}
+	s.Cov.N["queries_open_across_cache_calls"]++
+}
